@@ -128,10 +128,17 @@ def check(rep, tier, seed, replay):
     ob_u = sorted({l for l, _ in ob})[:3000]
     cyc = dict(zip(ob_u, core.run_driver([l.replace("checkapp ", "appcycle ", 1).replace(f" {budget} ", " 20000 ", 1) for l in ob_u])))
     cyc_found = 0
+    model_of = dict(zip(lines, model))
+    impl_of = dict(zip(lines, impl))
     for l, (line, a) in ob:
         o = cyc.get(l, "open")
         if o.startswith("cycle"):
             cyc_found += 1
+            if model_of.get(line) == impl_of.get(line) and int(line.split(" ")[1]) <= MODEL_LIM:
+                # the model of the prover AS IT IS makes the same (false) application: finding F10,
+                # the heuristic infers rules from four observations without proof
+                rep.known("F10", f"{line}  application {a}  ({o}: unreachable)")
+                continue
             rep.violation("oracle", {"case": line, "application": a, "validator": o,
                                      "what": "the real machine returns to the configuration before the application without ever "
                                              "passing through the tape after it: the reported application is unreachable"})
